@@ -24,6 +24,9 @@ type scen struct {
 }
 
 func (s scen) name() string {
+	if s.kind == "broken-response-then-exit" {
+		return fmt.Sprintf("first-ends=success rogue=none(the runtime's response for #1 breaks off mid-body, then the runtime exits) ext=%v B=%d", s.ext, s.bound)
+	}
 	if s.kind == "platform-late-error" {
 		return fmt.Sprintf("first-ends=crash-at-timeout rogue=none(the platform's own error report for #1 may be late) ext=%v B=%d", s.ext, s.bound)
 	}
@@ -60,6 +63,11 @@ func (s scen) config(rp **rec) *stack.Config {
 			r.ids = append(r.ids, n.ReqID)
 			k := len(r.ids)
 			r.curID, r.curDone = n.ReqID, false
+			if s.kind == "broken-response-then-exit" && k == 2 {
+				// invocation 1: a submission that is never accepted, then the process dies
+				rt.ResponseBroken(n.ReqID, []byte(`{"partial":`))
+				rt.Exit(1)
+			}
 			if s.kind == "platform-late-error" {
 				switch k {
 				case 2: // invocation 1: the process dies at the very moment the timeout expires (timer tie: both orders)
@@ -134,6 +142,16 @@ func (s scen) run(c *hx.Ctx) *hx.ScenarioResult {
 		w.Invoke(echo(0), nil)
 		if s.kind == "slow-response" {
 			s.slow(w, r)
+			return
+		}
+		if s.kind == "broken-response-then-exit" {
+			sched.Region(true)
+			w.Invoke(echo(1), nil)
+			w.Invoke(echo(2), nil)
+			sched.Region(false)
+			vtime.Sleep(100 * 1e6)
+			w.Invoke(echo(3), nil)
+			sched.Finish()
 			return
 		}
 		if s.kind == "platform-late-error" {
@@ -261,7 +279,14 @@ func (s scen) judge(e *sched.Exec) (string, string, *sched.Failure) {
 			failf("1", fmt.Sprintf("rogue-status-%d:%s", c.Status, s.kind), "the %s submission got status %d, expected a 4xx refusal", s.kind, c.Status)
 		}
 	}
-	if len(r.rogue) == 0 && s.kind != "platform-late-error" {
+	if s.kind == "broken-response-then-exit" {
+		// the unaccepted submission has no effect: the caller of #1 gets what a plain runtime exit gives
+		inv := w.Invokes[1]
+		if inv.Status != 502 || !strings.Contains(string(inv.Body), "Runtime.ExitError") {
+			failf("2", fmt.Sprintf("unaccepted-submission-changed-outcome:%d", inv.Status), "the runtime's response for invocation 1 broke off mid-body and the runtime exited: the caller got status %d body %q instead of the 502 Runtime.ExitError a plain exit gives", inv.Status, string(inv.Body))
+		}
+	}
+	if len(r.rogue) == 0 && s.kind != "platform-late-error" && s.kind != "broken-response-then-exit" {
 		failf("1", "rogue-not-run", "the rogue submission was never made")
 	}
 	// (2) no effect: invocations 2 and 3 end exactly as without the rogue submission
@@ -306,6 +331,7 @@ func init() {
 			}
 		}
 		ss = append(ss, scen{ending: "success", kind: "platform-late-error", bound: b})
+		ss = append(ss, scen{ending: "success", kind: "broken-response-then-exit", bound: b})
 		if tier == "thorough" {
 			ss = append(ss, scen{ending: "success", kind: "platform-late-error", ext: true, bound: b})
 		}
